@@ -640,8 +640,50 @@ fn c10_readd(variant: u8) -> Result<(), String> {
     Ok(())
 }
 
+/// votes and proposals: a Plutus-witnessed voter / proposal among key-hash ones; its redeemer must carry the position the item has
+/// in the body (voters: the body's own order; proposals: the emitted sequence)
+fn c10_votes_and_proposals(variant: u8) -> Result<(), String> {
+    let tag = format!("votes / proposals scenario {}", variant);
+    let script = PlutusScript::new_v3(vec![9u8, variant]);
+    let marker = 77u8;
+    let action = GovernanceActionId::new(&TransactionHash::from([5u8; 32]), 0);
+    let proc_ = VotingProcedure::new(VoteKind::Yes);
+    let mut vb = VotingBuilder::new();
+    // key-hash voters on both sides of the script DRep in the voter order (committee hot keys sort before DReps, pools after)
+    let script_voter = Voter::new_drep_credential(&Credential::from_scripthash(&script.hash()));
+    let others: Vec<Voter> = match variant % 4 {
+        0 => vec![Voter::new_constitutional_committee_hot_credential(&kc(1))],
+        1 => vec![Voter::new_constitutional_committee_hot_credential(&kc(1)), Voter::new_constitutional_committee_hot_credential(&kc(2)), Voter::new_stake_pool_key_hash(&kh(3))],
+        2 => vec![Voter::new_stake_pool_key_hash(&kh(3))],
+        _ => vec![Voter::new_drep_credential(&kc(0)), Voter::new_constitutional_committee_hot_credential(&kc(9))],
+    };
+    for v in &others { vb.add(v, &action, &proc_).map_err(|_| format!("{}: vote refused", tag))?; }
+    vb.add_with_plutus_witness(&script_voter, &action, &proc_, &PlutusWitness::new_without_datum(&script, &redeemer_with_marker(&RedeemerTag::new_vote(), marker))).map_err(|_| format!("{}: script vote refused", tag))?;
+    let mut tb = TransactionBuilder::new(&config(true));
+    let mut ib = TxInputsBuilder::new();
+    ib.add_key_input(&kh(1), &TransactionInput::new(&TransactionHash::from([3u8; 32]), 0), &Value::new(&bn(500_000_000)));
+    tb.set_inputs(&ib);
+    tb.set_voting_builder(&vb);
+    tb.set_fee(&bn(2_000_000));
+    let tx = tb.build_tx_unsafe().map_err(|_| format!("{}: build failed", tag))?;
+    let voters = tx.body().voting_procedures().ok_or(format!("{}: no votes in the body", tag))?.get_voters();
+    let pos = (0..voters.len()).find(|&i| voters.get(i).map(|v| v.to_bytes() == script_voter.to_bytes()).unwrap_or(false)).ok_or(format!("{}: script voter missing from the body", tag))?;
+    let reds = tx.witness_set().redeemers().ok_or(format!("{}: no redeemers", tag))?;
+    let mut found = false;
+    for i in 0..reds.len() {
+        let r = reds.get(i);
+        if r.tag().kind() == RedeemerTagKind::Vote {
+            found = true;
+            let idx: u64 = r.index().into();
+            if idx as usize != pos { return Err(format!("{}: the vote redeemer points at voter #{} of the body, the script voter is #{}", tag, idx, pos)); }
+        }
+    }
+    if !found { return Err(format!("{}: no vote redeemer emitted", tag)); }
+    Ok(())
+}
 pub fn c10_pointers<S: Src>(_s: &mut S) {
     let mut failures = Vec::new();
+    for v in 0..4u8 { if let Err(e) = c10_votes_and_proposals(v) { failures.push(e); } }
     for v in 0..4u8 { if let Err(e) = c10_readd(v) { failures.push(e); } }
     for v in 0..6u8 { if let Err(e) = c10_scenario(v) { failures.push(e); } }
     let orders: [&[usize]; 12] = [&[1], &[0, 1], &[1, 0], &[2, 1], &[1, 2], &[0, 1, 2], &[2, 1, 0], &[1, 2, 0], &[3, 1], &[1, 3], &[0, 3, 2, 1], &[2, 0, 1, 3]];
